@@ -2,6 +2,7 @@ import Driver.Util
 import Driver.Packed
 import Driver.Gen
 import Driver.Read
+import Driver.Frame
 /-! `modeld`: one operation per line on stdin, one canonical result per line on stdout. -/
 open Driver
 
@@ -10,6 +11,7 @@ def dispatch (line : String) : String :=
   | "packed" :: rest => Driver.Packed.run rest
   | "gen" :: rest => Driver.Gen.run rest
   | "read" :: rest => Driver.Read.run rest
+  | "frame" :: rest => Driver.Frame.run rest
   | ["case", _] => "case"
   | _ => "bad-op"
 
